@@ -545,13 +545,22 @@ Definition scroll_check (ref : Q) (c : chart) : bool :=
 Lemma scroll_small_scope_computed : forall_small (scroll_check 3) = true.
 Proof. vm_compute. reflexivity. Qed.
 
+Lemma forall_small_elim p : forall_small p = true ->
+  forall b s n, In b small_tempos -> In s small_svs -> In n small_notes -> p (mkChart b s n) = true.
+Proof.
+  unfold forall_small. intros H b s n Hb Hs Hn.
+  rewrite forallb_forall in H. specialize (H b Hb). rewrite forallb_forall in H. specialize (H s Hs).
+  rewrite forallb_forall in H. exact (H n Hn).
+Qed.
+
 Theorem scroll_speed_spec_partial b s n :
   In b small_tempos -> In s small_svs -> In n small_notes -> wf_chart (mkChart b s n) = true ->
   exists o, scroll_speed_with (mkChart b s n) 3 = Some o /\ scroll_ok 0 (mkChart b s n) 3 o.
 Proof.
-  intros Hb Hs Hn W. pose proof scroll_small_scope_computed as H. unfold forall_small in H.
-  rewrite forallb_forall in H. specialize (H b Hb). rewrite forallb_forall in H. specialize (H s Hs).
-  rewrite forallb_forall in H. specialize (H n Hn). unfold scroll_check in H. rewrite W in H. cbn [negb orb] in H.
-  destruct (scroll_speed_with (mkChart b s n) 3) as [o|]; [|discriminate].
-  exists o. split; [reflexivity|]. apply scroll_okb_sound. exact H.
+  intros Hb Hs Hn W.
+  pose proof (forall_small_elim (scroll_check 3) scroll_small_scope_computed b s n Hb Hs Hn) as H.
+  unfold scroll_check in H. apply orb_true_iff in H. destruct H as [H|H].
+  - apply negb_true_iff in H. congruence.
+  - destruct (scroll_speed_with (mkChart b s n) 3) as [o|]; [|discriminate].
+    exists o. split; [reflexivity|]. apply scroll_okb_sound. exact H.
 Qed.
